@@ -168,7 +168,39 @@ def checked_conversions(ctx, quals: Iterable[str], exempt_sources: Tuple[str, ..
                 ctx.ok(construct, f.loc(n), by="same text already converted in a try whose ValueError handler leaves the function")
                 continue
             gs = fl.guards_at(n) or set()
-            guarded = any(p and k2.startswith(VALIDATORS) for k2, p in gs)
+            # the validity fact must be about the converted text itself (or its stripped copy: int() / float() ignore surrounding
+            # blanks) - a fact about another text of the same function validates nothing here
+            forms = {at, src_txt, ast.unparse(res.resolve(arg))}
+            try:
+                forms.add(expand_locals(f.node, arg))
+            except Exception:
+                pass
+            # a value derived from the validated text without changing whether it converts: `_normalize_float(x)`, `x.strip()`, `str(x)`
+            for x in list(forms):
+                try:
+                    e_ = ast.parse(x, mode="eval").body
+                except SyntaxError:
+                    continue
+                while isinstance(e_, ast.Call) and ((isinstance(e_.func, ast.Name) and e_.func.id in ("_normalize_float", "str") and len(e_.args) == 1) or
+                                                   (isinstance(e_.func, ast.Attribute) and e_.func.attr in ("strip", "lower", "upper") and not e_.args)):
+                    e_ = e_.args[0] if isinstance(e_.func, ast.Name) else e_.func.value
+                    forms.add(ast.unparse(e_))
+            forms |= {f"{x}.strip()" for x in list(forms)}
+
+            def _about_arg(key: str) -> bool:
+                try:
+                    e = ast.parse(key, mode="eval").body
+                except SyntaxError:
+                    return False
+                if not (isinstance(e, ast.Call) and e.args):
+                    return False
+                cand = {ast.unparse(e.args[0])}
+                try:
+                    cand.add(expand_locals(f.node, e.args[0]))
+                except Exception:
+                    pass
+                return bool(cand & forms)
+            guarded = any(p and k2.startswith(VALIDATORS) and _about_arg(k2) for k2, p in gs)
             # consumers of an *evaluated* numeric value: it is a number of its type or empty, so a non-empty test is the guard
             if isinstance(arg, ast.Name) and src_txt.endswith(".str_value"):
                 # ... of the symbol whose numeric type the branch has established (a bound or a `set` value may be any symbol)
